@@ -30,7 +30,7 @@ def check(ctx):
     exe = _exe(ctx)
     q = ctx.tier == 'quick'
     args = ['--known', _known(), '--outdir', vlib.OUT, '--jobs', str(min(vlib.NJOBS, 12))]
-    args += ['--maxall', '5', '--maxdev', '1', '--deadline', '60'] if q else ['--maxall', '7', '--maxdev', '2', '--deadline', '1000', '--thorough']
+    args += ['--maxall', '5', '--maxdev', '1', '--deadline', '45'] if q else ['--maxall', '7', '--maxdev', '2', '--deadline', '1000', '--thorough']
     ctx.run_engine(exe, args, label='ops', timeout=(600 if q else 2400))
     return ctx.finish(RULE, ASSUME)
 def replay(ctx, path, obj):
